@@ -389,16 +389,18 @@ def harnesses(tier):
         hs.append(Harness('histogram 2-d n=2', body_histogram, params=dict(n=2, bins=2, subset='none', two_d=True), validate=40,
                           bounds=dict(values=2, bins=(2, 2))))
     else:
-        for shape in [(2, 3), (2, 2, 2), (4,)]:
+        for shape in [(2, 3), (2, 2, 2), (4,), (2, 2)]:
             for stat in STATS:
+                if (stat in ('median', 'percentile')) != (shape in ((2, 2), (4,))) and shape != (4,):
+                    continue          # order statistics (sorting networks over symbolic masks): the two small shapes only
                 for sub in (['none', 'empty'], ['mask'], ['range', 'pixel'], ['slice', 'slice2']):
                     hs.append(Harness('statistic %s %s %s' % (shape, stat, '+'.join(sub)), body_statistic,
                                       params=dict(shape=shape, stats=[stat], subsets=sub), validate=40, weight=8 if 'mask' in sub else 3,
                                       max_paths=2000000, wall_s=3400,
                                       bounds=dict(shape=shape, statistic=stat, subsets=sub, axes='all', views=len(views_for(shape)))))
         hs.append(Harness('statistic (2, 3) finite=False', body_statistic,
-                          params=dict(shape=(2, 3), stats=STATS, subsets=['none', 'mask', 'range'], finite=False), validate=40,
-                          bounds=dict(shape=(2, 3), finite=False, note='data without NaN')))
+                          params=dict(shape=(2, 2), stats=STATS, subsets=['none', 'mask', 'range'], finite=False), validate=40,
+                          wall_s=3400, bounds=dict(shape=(2, 2), finite=False, note='data without NaN')))
         for nval, nb in ((4, 3), (3, 4), (4, 2)):
             for wts in (False, True):
                 for sub in ('mask', 'ineq', 'none'):
